@@ -208,9 +208,51 @@ theorem fileNew_fail_none (l : σ) (args : Option (Nat × Mode)) :
 
 /-- what `stepR` produces continues object `o`'s own well-bracketed log and ends holding what the object holds -/
 theorem stepR_track (s : Multi σ) (o : Nat) (m : MOp) (r : R σ Val) (keep : Bool)
-    (h : s.stepR io Cfg.fixed o m = some (r, keep)) :
+    (h : s.stepR io Cfg.fixed o m = some (r, keep)) (hc : s.copiesOpen o m = false) :
     track (s.held o) r.calls = some (if keep then r.f else none) := by
   cases m with
+  | new1 k =>
+    simp only [Multi.stepR] at h
+    cases hl : lookup o s.objs with
+    | some f => simp [hl] at h
+    | none =>
+      simp only [hl, Option.some.injEq, Prod.mk.injEq] at h
+      obtain ⟨hr, hk⟩ := h
+      subst hr hk
+      simp [Multi.held, hl, track]
+  | copy src =>
+    simp only [Multi.stepR] at h
+    cases hl : lookup o s.objs with
+    | some f => simp [hl] at h
+    | none =>
+      cases hs : lookup src s.objs with
+      | none => simp [hl, hs] at h
+      | some f =>
+        simp only [hl, hs, Option.some.injEq, Prod.mk.injEq] at h
+        obtain ⟨hr, hk⟩ := h
+        subst hr hk
+        simp only [Multi.copiesOpen, Multi.held, hs] at hc
+        cases f with
+        | some x => simp at hc
+        | none => simp [Multi.held, hl, track]
+  | assign src =>
+    simp only [Multi.stepR] at h
+    cases hl : lookup o s.objs with
+    | none => simp [hl] at h
+    | some g =>
+      cases hs : lookup src s.objs with
+      | none => simp [hl, hs] at h
+      | some f =>
+        simp only [hl, hs, Option.some.injEq, Prod.mk.injEq] at h
+        obtain ⟨hr, hk⟩ := h
+        subst hr hk
+        simp only [Multi.copiesOpen, Multi.held, hs, hl, Bool.or_eq_false_iff] at hc
+        cases f with
+        | some x => simp at hc
+        | none =>
+          cases g with
+          | some y => simp at hc
+          | none => simp [Multi.held, hl, track]
   | new args =>
     simp only [Multi.stepR] at h
     cases hl : lookup o s.objs with
@@ -249,7 +291,7 @@ theorem stepR_track (s : Multi σ) (o : Nat) (m : MOp) (r : R σ Val) (keep : Bo
       simp only [Multi.held, hl]
       rw [step_track]; simp
 
-theorem Multi.step_track (s : Multi σ) (o' : Nat) (m : MOp) (o : Nat) :
+theorem Multi.step_track (s : Multi σ) (o' : Nat) (m : MOp) (hc : s.copiesOpen o' m = false) (o : Nat) :
     ∃ suf, (s.step io Cfg.fixed o' m).log = s.log ++ suf ∧
       track (s.held o) (proj o suf) = some ((s.step io Cfg.fixed o' m).held o) := by
   simp only [Multi.step]
@@ -261,18 +303,19 @@ theorem Multi.step_track (s : Multi σ) (o' : Nat) (m : MOp) (o : Nat) :
     by_cases ho : o' = o
     · subst ho
       rw [proj_tag_self, held_apply_self]
-      exact stepR_track io s o' m r keep hs
+      exact stepR_track io s o' m r keep hs hc
     · rw [proj_tag_ne o o' ho, held_apply_ne s o o' (Ne.symm ho)]; rfl
 
-theorem Multi.run_track (s : Multi σ) (steps : List (Nat × MOp)) (o : Nat) :
+theorem Multi.run_track (s : Multi σ) (steps : List (Nat × MOp)) (hc : s.cleanRun io Cfg.fixed steps = true) (o : Nat) :
     ∃ suf, (s.run io Cfg.fixed steps).log = s.log ++ suf ∧
       track (s.held o) (proj o suf) = some ((s.run io Cfg.fixed steps).held o) := by
   induction steps generalizing s with
   | nil => exact ⟨[], by simp [Multi.run], by simp [Multi.run, proj]⟩
   | cons st rest ih =>
     obtain ⟨o', m⟩ := st
-    obtain ⟨suf1, hl1, ht1⟩ := Multi.step_track io s o' m o
-    obtain ⟨suf2, hl2, ht2⟩ := ih (s.step io Cfg.fixed o' m)
+    simp only [Multi.cleanRun, Bool.and_eq_true, Bool.not_eq_true'] at hc
+    obtain ⟨suf1, hl1, ht1⟩ := Multi.step_track io s o' m hc.1 o
+    obtain ⟨suf2, hl2, ht2⟩ := ih (s.step io Cfg.fixed o' m) hc.2
     refine ⟨suf1 ++ suf2, by simp [Multi.run, hl2, hl1, List.append_assoc], ?_⟩
     rw [proj_append]
     simp only [Multi.run]
